@@ -49,6 +49,29 @@ def pipe_K(l):
     return 10.667 * l['len'] / (l['C'] ** 1.852 * l['diam'] ** 4.871)
 
 
+def oscillation_onset(sp, ref, nrev=4):
+    """time of the nrev-th direction reversal of a tank level between consecutive solved steps (None if there is none).
+
+    A tank that reverses direction at nearly every solved step is in the unstable regime of the explicit tank integration
+    (typically chattering at a level limit): its trajectory then depends exponentially on one-second shifts of event
+    times, and two executions of one and the same fresh model differ by metres.  Nothing after the onset is comparable."""
+    onset = None
+    for tk in sp['tanks']:
+        h = ref.node['head'][tk['name']]
+        q = float(np.max(np.abs(ref.node['demand'][tk['name']]))) if len(h) else 0.0
+        thr = max(0.02, 20.0 * q / S.tank_area(tk))        # well above two seconds of flow
+        d = np.diff(h)
+        cnt = 0
+        for i in range(1, len(d)):
+            if d[i] * d[i - 1] < 0 and min(abs(d[i]), abs(d[i - 1])) > thr:
+                cnt += 1
+                if cnt >= nrev:
+                    t = float(ref.times[i + 1])
+                    onset = t if onset is None else min(onset, t)
+                    break
+    return onset
+
+
 def compare(sp, rules, ref, other, what='second run', noise=None):
     """-> None | ('inconclusive', reason) | ('fail', bucket, detail, t)   (rows on the hydraulic grid)
 
@@ -70,6 +93,15 @@ def compare(sp, rules, ref, other, what='second run', noise=None):
                 % (what, missing, extra), grid[0] if grid else 0)
     if not grid:
         return None
+    onset = oscillation_onset(sp, ref)
+    if onset is not None:
+        keep = [k for k, t in enumerate(grid) if t < onset]
+        if len(keep) < 2:
+            return ('inconclusive', 'a tank oscillates from the start (unstable explicit tank integration): trajectories '
+                                    'of the same model are not reproducible')
+        grid = [grid[k] for k in keep]
+        gi = [gi[k] for k in keep]
+        go = [go[k] for k in keep]
     # recorded open finding of C02: an open constant-power pump can settle on a spurious negative-flow root; the
     # hydraulic solution is then not unique and two executions may land on different roots
     for pmp in sp['pumps']:
